@@ -187,6 +187,7 @@ def main():
     c += ['  printf("L G_MAXSHORT %ld\\n", (long) G_MAXSHORT);', '  printf("L G_MINSHORT %ld\\n", (long) G_MINSHORT);',
           '  printf("L G_MAXUSHORT %ld\\n", (long) G_MAXUSHORT);', '  printf("L G_MAXINT %ld\\n", (long) G_MAXINT);',
           '  printf("L sizeof_int %ld\\n", (long) sizeof(int));',
+          '  printf("L sizeof_gint64 %ld\\n", (long) sizeof(gint64));',
           '  printf("G ARRAY %d\\n", (int) GI_TYPE_TAG_ARRAY);', '  printf("G INTERFACE %d\\n", (int) GI_TYPE_TAG_INTERFACE);',
           '  printf("G VOID %d\\n", (int) GI_TYPE_TAG_VOID);',
           '  printf("G INT8 %d\\n", (int) GI_TYPE_TAG_INT8);', '  printf("G UINT8 %d\\n", (int) GI_TYPE_TAG_UINT8);',
@@ -263,6 +264,9 @@ def gMinShort : Int := %d
 def gMaxUShort : Int := %d
 def gMaxInt : Int := %d
 def sizeofInt : Nat := %d
+/-- `sizeof (gint64)`: the width compute_enum_storage_type gives an enumeration with a negative member
+    and a member above G_MAXINT -/
+def sizeofGint64 : Nat := %d
 
 def tagVoid : Nat := %d
 def tagArray : Nat := %d
@@ -316,6 +320,7 @@ end GIVerif.Gen
        lst(['(%d, %d, %d)' % u for u in uints]),
        lst(['(%d, %d, %s)' % (n, s, 'true' if sg else 'false') for n, s, sg in probes]),
        limits['G_MAXSHORT'], limits['G_MINSHORT'], limits['G_MAXUSHORT'], limits['G_MAXINT'], limits['sizeof_int'],
+       limits['sizeof_gint64'],
        consts['VOID'], consts['ARRAY'], consts['INTERFACE'], consts['INT8'], consts['UINT8'], consts['INT16'],
        consts['UINT16'], consts['INT32'], consts['UINT32'], consts['INT64'], consts['UINT64'],
        lean_str(align_shape),
